@@ -40,6 +40,8 @@ func registerTime() {
 	reg("(time.Time).Equal", func(x *Exec, g *G, a []Value) Value { return Eq(timeExt(a[0]), timeExt(a[1])) })
 	reg("(time.Time).IsZero", func(x *Exec, g *G, a []Value) Value { return Eq(timeExt(a[0]), MkBV(64, 0)) })
 	reg("(time.Time).UnixNano", func(x *Exec, g *G, a []Value) Value { return timeExt(a[0]) })
+	reg("(time.Time).Unix", func(x *Exec, g *G, a []Value) Value { return SDiv(timeExt(a[0]), MkBV(64, 1_000_000_000)) })
+	reg("(time.Time).UnixMilli", func(x *Exec, g *G, a []Value) Value { return SDiv(timeExt(a[0]), MkBV(64, 1_000_000)) })
 	reg("(time.Time).UTC", func(x *Exec, g *G, a []Value) Value { return a[0] })
 	reg("(time.Time).Local", func(x *Exec, g *G, a []Value) Value { return a[0] })
 	reg("(time.Time).Round", func(x *Exec, g *G, a []Value) Value { return a[0] })
@@ -53,8 +55,8 @@ func registerTime() {
 	reg("(time.Time).String", func(x *Exec, g *G, a []Value) Value { return &Str{Opaque: true} })
 	reg("time.Parse", func(x *Exec, g *G, a []Value) Value {
 		// contract: returns an arbitrary instant or an error (nondeterministic)
-		fail := x.input("time.Parse.fails", "bool", SBool)
-		ns := x.input("time.Parse.ns", "i64", SBV64)
+		fail := x.inputEnv("time.Parse.fails", "bool", SBool)
+		ns := x.inputEnv("time.Parse.ns", "i64", SBV64)
 		var isFail bool
 		if x.choose([]*Term{fail, Not(fail)}, "timeparse") == 0 {
 			isFail = true
